@@ -92,7 +92,10 @@ theorem validators_decide_grammar (na : Char → Bool) (s : Str) :
 
 /-- If a constructor of `txdbus.message` returns, every path, member, interface, destination
 and error name it was given belongs to its grammar (`None` for an optional field carries no
-name).  Error names are checked through `validateInterfaceName`, which is the same grammar. -/
+name).  Error names are checked through `validateInterfaceName`, which is the same grammar.
+"Constructed" = returned by one of the four `__init__`s with `str`/`None` name arguments;
+`parseMessage` (which builds objects with `object.__new__` and validates nothing) and
+`path=None` are outside this statement. -/
 theorem constructed_message_names_grammatical (na : Char → Bool) :
     (∀ path member iface dest, constructMethodCall na path member iface dest = .accept →
         GrammarObjectPath path ∧ GrammarMemberName member ∧
@@ -128,7 +131,12 @@ theorem constructed_message_names_grammatical (na : Char → Bool) :
       (validateInterfaceName_iff_grammar na _).mp hi,
       fun d e => (validateBusName_iff_grammar na _).mp (hd d e)⟩
 
-/-- A constructor that does not return raises `MarshallingError`. -/
+/-- AS FAR AS THE NAME ARGUMENTS ARE CONCERNED, a constructor that does not return raises
+`MarshallingError`: this is a statement about the name-only model `Valid/MsgNames.lean` (path,
+member, interface, destination, error name as `str` / `None`; no body).  It does NOT say that a
+real constructor can only raise `MarshallingError`: non-name arguments raise other classes in
+the real code (`ErrorMessage('a.b', 'x')` -> ValueError from `UInt32('x')`, body/signature
+mismatches, the message size limit), and those are outside C18. -/
 theorem message_construction_rejects_with_marshallingError (na : Char → Bool) :
     (∀ path member iface dest, (constructMethodCall na path member iface dest).Clean) ∧
     (∀ dest, (constructMethodReturn na dest).Clean) ∧
